@@ -145,6 +145,14 @@ def check(col, url, opts, extra_kwargs=None):
     ok = host_ok(hin, hout, opts)
     if not ok:
         col.violation("host-only-whole-irrelevant-labels-removed", FN, inp, {"result": res, "host": dout["host"]}, din["host"])
+    # ---- host, as WRITTEN in the result: IDNA-decoded label by label (a decodable 'xn--' label does not survive next to one the codec refuses)
+    try:
+        raw_host = R.urlsplit("http://" + res if (opts["strip_protocol"] or not has_protocol) else res).hostname or ""
+    except ValueError:
+        raw_host = ""
+    col.count("host-idna-decoded")
+    if R.host_norm(raw_host) != raw_host:
+        col.violation("host-idna-decoded", FN, inp, {"result": res, "host_as_written": raw_host}, R.host_norm(raw_host))
     # ---- port
     col.count("port")
     pin = R.urlsplit(u).port
@@ -257,6 +265,8 @@ def base_urls():
              "x.amp-y.a.com", "amp-x.amp-y.a.com", "www.amp-x.a.com",
              # bracketed literals that are no IPv6 address (RFC 3986 IPvFuture): whatever holds a ':' goes back between brackets
              "[v1.fe80::a+en1]", "u:pw@[v7.a:b]:8443", "[::1]:8080",
+             # a decodable punycode label next to a label the idna codec refuses (raw non-ASCII, undecodable 'xn--'): labels are decoded one by one
+             "xn--caf-dma.\xe9lys\xe9e.fr", "xn--ii.xn--tlrama-bvab.fr", "www.XN--CAF-DMA.m\xfcnchen.de",
              # hosts made of irrelevant labels only (fully-qualified spellings: the trailing dot closes the label)
              "www.", "m.", "www.m.", "amp.", "www", "amp-"]
     # per-domain query filters: the domain itself, a subdomain, and hosts that merely END with its letters
